@@ -44,6 +44,10 @@ def run(ck: Checker):
         s_ = server.discover(ck.repo, name)
         server.check_race_free_resolution(ck, 'C06-14', s_)
         server.check_unknown_id_tolerated(ck, 'C06-14', s_)
+    ck.rule('C06-15', 'a request that was admitted gets an answer, and with it its slot back: the thread that feeds the first process stage survives an input whose pickling fails — whatever the error class — and answers that request (C04-11); a dead feeder leaves every later admitted request in the ledger for ever')
+    from .c04 import check_onboarding
+
+    check_onboarding(ck, 'C06-15')
     ck.rule('C06-11', "the admission wait's timeout becomes ServerBacklogFull: the handler around the timed wait catches the class the standard library raises, not only the module's own re-bound TimeoutError subclass", minimum=2)
     from .common import check_std_timeout_handlers
 
